@@ -44,7 +44,7 @@ RULE = ('a case is one HISTORY: a store of 2..6 small Frames (9 kinds: string/in
         'class) and bus.status["loaded"] are compared with M and with S evaluated in Coq on the same history. Strata: exhaustive (all '
         'histories of length 3 x max_persist None,1,2 quick / length 4 x None,1,2,3 thorough, over a fixed 10-operation alphabet on 3 labels), '
         'random (online generation from the current labels incl. derived Buses, get/iter_element/sort_values and per-label configurations '
-        'with any max_persist), stale (file touched / replaced by a file with OTHER Frames under the same labels / deleted at every point, the new mtime both newer and OLDER than the recorded one), wide-slice (5..7 labels, max_persist 2..3: one or two single loads, then iloc[a:b] / loc[x:y] / head / tail needing more loads than max_persist, then every label read back, the still-loaded ones first; all 5104 shapes thorough, 240 sampled quick, two thirds of them shapes where a loaded Frame is evicted and re-instated mid-call), malformed keys, kernel (private _loaded/_last_accessed '
+        'with any max_persist), stale (file touched / replaced by a file with OTHER Frames under the same labels / deleted at every point, the new mtime both newer and OLDER than the recorded one), wide-slice (5..7 labels, max_persist 2..3: one or two single loads, then iloc[a:b] / loc[x:y] / head / tail needing more loads than max_persist, then every label read back, the still-loaded ones first; all 5104 shapes thorough, 240 sampled quick, two thirds of them shapes where a loaded Frame is evicted and re-instated mid-call), pickle-classes (a zip-pickle store mixing Frame / FrameGO / FrameHE members, multi-label selections with max_persist None/2/3/4: class and equals(compare_class/dtype/name) of every served Frame against the eager single-label load, a served FrameGO is grown and later answers must not change), malformed keys, kernel (private _loaded/_last_accessed '
         'and the read calls reaching the store), Bus._store_reader against a stub, write/reopen round trip with full Frame literals (also crossed: 4 formats x label kinds str/int/date/tuple/None through label_encoder/decoder x one StoreConfig vs a per-label StoreConfigMap with differing index_depth/columns_depth/include_index), one '
         'regression stratum per repaired defect (the former witness inputs, specification = the correct behaviour). Non-trivial: max_persist '
         'active or the stale file actually refused a read; distinct = distinct (store, max_persist, history).')
@@ -499,7 +499,7 @@ def store_config(kind):
 class Env:
     """One store file on disk + what was written into it."""
 
-    def __init__(self, tmp, name, fmt, order, kinds, mapped, rng):
+    def __init__(self, tmp, name, fmt, order, kinds, mapped, rng, classes=None):
         import static_frame as sf
         self.fmt = fmt
         self.order = list(order)                     # labels in store order
@@ -507,6 +507,13 @@ class Env:
         self.mapped = bool(mapped) and fmt != 'zip_pickle'
         keys = rng.sample(range(-40, 40), len(order))
         self.frames = {l: make_frame(k, l, v, rng) for l, k, v in zip(order, kinds, keys)}
+        if classes is not None:
+            # members of other Frame classes (a pickle store keeps them): 'Frame' | 'FrameGO' | 'FrameHE'
+            conv = {'Frame': lambda f: f, 'FrameGO': lambda f: f.to_frame_go(), 'FrameHE': lambda f: f.to_frame_he()}
+            self.frames = {l: conv[c](self.frames[l]) for l, c in zip(order, classes)}
+            self.classes = dict(zip(order, classes))
+        self.reference = None                        # label -> Frame an eager single-label load returns (set by the class stratum)
+        self.class_fail = []
         self.fid = {l: 10 + _rank(l) for l in order}
         self.sortkey = {self.fid[l]: v for l, v in zip(order, keys)}
         self.lit2id = {lit.oframe(f): self.fid[l] for l, f in self.frames.items()}
@@ -733,11 +740,34 @@ def _canon_frame(env, f):
     if f is FrameDeferred:
         return None
     if isinstance(f, sf.Frame):
+        if getattr(env, 'reference', None) is not None:
+            _check_against_eager(env, f)
         try:
             return env.lit2id.get(lit.oframe(f), -1)
         except ValueError:
             return -1
     return -2
+
+
+def _check_against_eager(env, f):
+    '''A Frame the Bus served, against the Frame an eager single-label load of the same label returns: same class,
+    equals(compare_class, compare_dtype, compare_name); a served grow-only Frame is then GROWN, so that a Bus which caches
+    the mutable object shows it in its later answers (which are checked the same way).'''
+    import static_frame as sf
+    ref = env.reference.get(f.name)
+    if ref is None:
+        env.class_fail.append(f'served a Frame named {f.name!r} that no label of the store has')
+        return
+    if f.__class__ is not ref.__class__:
+        env.class_fail.append(f'label {f.name!r}: the Bus served a {f.__class__.__name__}, an eager load of that label returns a {ref.__class__.__name__}')
+    elif not f.equals(ref, compare_class=True, compare_dtype=True, compare_name=True):
+        env.class_fail.append(f'label {f.name!r}: the Frame served differs from the eager load (equals with compare_class/dtype/name); '
+                              f'columns served {list(f.columns)}')
+    if isinstance(f, sf.FrameGO):
+        try:
+            f[f'__grown_{len(f.columns)}__'] = 0
+        except Exception:  # noqa
+            pass
 
 
 def _bus_obs(bus):
@@ -898,7 +928,7 @@ def mp_coq(mp):
     return 'None' if mp is None else f'(Some {lit.z(mp)})'
 
 
-def history_case(kind, env, mp, ops, trace, kernel=False, tags=None, nontrivial=True, extra=None, default_differs=None):
+def history_case(kind, env, mp, ops, trace, kernel=False, tags=None, nontrivial=True, extra=None, default_differs=None, py_fail=None):
     ops_lit = lit.lst([op_coq(o) for o in ops])
     args = f'{env.content_lit(default_differs)} {T0} {mp_coq(mp)} {env.keytbl_lit()} {ops_lit}'
     if kernel:
@@ -915,7 +945,7 @@ def history_case(kind, env, mp, ops, trace, kernel=False, tags=None, nontrivial=
         desc['observed_private'] = [{'_last_accessed': t[2], 'store reads': t[3]} for t in trace]
     if extra:
         desc.update(extra)
-    return Case(kind, desc, m=m, s=s, tags=dict(tags or {}), nontrivial=nontrivial)
+    return Case(kind, desc, m=m, s=s, py_fail=py_fail, tags=dict(tags or {}), nontrivial=nontrivial)
 
 
 # ---------------------------------------------------------------------------------- strata
@@ -1491,6 +1521,69 @@ def wide_slice_cases(ctx, work):
                            tags={'stratum': 'wide-slice', 'n': n, 'mp': mp, 'format': fmt})
 
 
+# ---------------------------------------------------------------------------------- zip-pickle stores with members of mixed Frame classes
+def pickle_class_cases(ctx, work):
+    """A zip-pickle store holding Frame, FrameGO and FrameHE members in varying orders; multi-label selections (loc list, slice,
+    Boolean, iloc list, values, items()) with max_persist None/2/3/4, each followed by reading the selected labels back (the ones
+    still loaded first).  Per served Frame: its class and equals(compare_class/dtype/name) against the Frame an EAGER single-label
+    load returns (on this tree: always a plain, immutable Frame -- StoreZipPickle.read_many converts to the container type), and
+    growing a served FrameGO must not change later answers."""
+    import static_frame as sf
+    rng = ctx.rng
+    acc = lambda l: ('sel', 'getitem', ('label', l), False)
+    for i in range(ctx.n(120, 2500)):
+        n = rng.randrange(4, 7)
+        order = rng.sample([_label(r) for r in range(8)], n)
+        classes = ['Frame', rng.choice(['FrameGO', 'FrameHE'])] + [rng.choice(['Frame', 'FrameGO', 'FrameHE']) for _ in range(n - 2)]
+        rng.shuffle(classes)
+        kinds = [rng.choice(kinds_pool('zip_pickle')) for _ in range(n)]
+        env = Env(work.tmp, work.name('pc'), 'zip_pickle', order, kinds, False, rng, classes=classes)
+        # the reference: every label loaded on its own by a fresh Bus
+        env.reference = None
+        ref = {l: sf.Bus.from_zip_pickle(env.fp)[l] for l in order}
+        env.reference = ref
+        mp = rng.choice([None, 2, 3, 4])
+        ops = []
+        for _ in range(rng.randrange(2, 5)):
+            k = rng.choice(['labels', 'slice', 'mask', 'list', 'values', 'items', 'lslice'])
+            if k == 'labels':
+                picked = rng.sample(order, rng.randrange(2, n + 1))
+                ops.append(('sel', rng.choice(['loc', 'getitem']), ('labels', picked), False))
+            elif k == 'slice':
+                a = rng.randrange(0, n - 1)
+                b = rng.randrange(a + 2, n + 1)
+                step = rng.choice([None, None, 2, -1])
+                key = (a, b, step) if step != -1 else (None, None, -1)
+                picked = order[slice(*key)]
+                ops.append(('sel', 'iloc', ('slice', key), False))
+            elif k == 'lslice':
+                a = rng.randrange(0, n - 1)
+                b = rng.randrange(a + 1, n)
+                picked = order[a:b + 1]
+                ops.append(('sel', 'loc', ('lslice', (order[a], order[b])), False))
+            elif k == 'mask':
+                m = [rng.random() < .6 for _ in range(n)]
+                picked = [l for l, x in zip(order, m) if x]
+                ops.append(('sel', rng.choice(['loc', 'iloc', 'getitem']), ('mask', m), False))
+            elif k == 'list':
+                ps = rng.sample(range(n), rng.randrange(2, n + 1))
+                picked = [order[p] for p in ps]
+                ops.append(('sel', 'iloc', ('list', ps), False))
+            else:
+                picked = list(order)
+                ops.append((k,))
+            ops += [acc(l) for l in reversed(picked)]      # the ones the call left loaded first: pure hits
+        ops, trace = run_history(env, mp, ops)
+        ctx.count(f'pickle-classes:mp={mp}', *(f'pickle-classes:{c}' for c in set(classes)))
+        fails = env.class_fail
+        yield history_case('api:pickle-classes', env, mp, ops, trace,
+                           py_fail=(f'{fails[0]} ({len(fails)} such observations)' if fails else None),
+                           extra={'classes written': classes, 'eager load returns': [ref[l].__class__.__name__ for l in order]},
+                           tags={'stratum': 'pickle-classes', 'mp': mp})
+        os.path.exists(env.fp) and os.remove(env.fp)
+        os.path.exists(env.backup) and os.remove(env.backup)
+
+
 def cases(ctx):
     work = Work()
     try:
@@ -1500,6 +1593,7 @@ def cases(ctx):
         yield from roundtrip_label_cases(ctx, work)
         yield from malformed_cases(ctx, work)
         yield from wide_slice_cases(ctx, work)
+        yield from pickle_class_cases(ctx, work)
         yield from stale_cases(ctx, work)
         yield from random_cases(ctx, work, kernel=False)
         yield from random_cases(ctx, work, kernel=True)
